@@ -21,7 +21,7 @@ BOUNDS = {
     "quick": "bit versions: widths 1..9, offsets 0..width inclusive, offset signal either just wide enough for `width` or for width-1, "
              "placeholder symbolic and defaulted, operand unsigned and signed; vector versions: lengths 1..4 of 2-field struct views (1+2 bits), of nested struct "
              "views and of plain 2-bit values, offsets 0..length inclusive, placeholder symbolic and defaulted",
-    "thorough": "bit versions: widths 1..16 (plus an over-wide offset signal restricted to 0..width); vector versions: lengths 1..6, "
+    "thorough": "bit versions: widths 1..32 (plus an over-wide offset signal restricted to 0..width); vector versions: lengths 1..10, "
                 "three element kinds",
 }
 OUTSIDE = ["offsets above the width / length (outside the documented domain: the repository's tests draw offsets from range(width+1), "
@@ -34,14 +34,14 @@ W = 8
 
 def configs(tier, seed):
     out = []
-    hi = 9 if tier == "quick" else 16
+    hi = 9 if tier == "quick" else 32
     for w in range(1, hi + 1):
         out.append(dict(group="bits", w=w, ow="exact"))
         if w > 1:
             out.append(dict(group="bits", w=w, ow="narrow"))
         if tier != "quick":
             out.append(dict(group="bits", w=w, ow="wide"))
-    for n in range(1, (4 if tier == "quick" else 6) + 1):
+    for n in range(1, (4 if tier == "quick" else 10) + 1):
         for kind in ("struct", "plain", "nested"):
             out.append(dict(group="vec", n=n, kind=kind))
     return out
